@@ -37,6 +37,7 @@ type Step struct {
 type Script struct {
 	Trace   int
 	Mode    string // "" = decision
+	Debug   bool   // the service logs at debug level
 	Default bool
 	DefBt   bool // the default rule enables backtracking
 	Steps   []Step
@@ -846,6 +847,11 @@ func (g *gen) probes(sets map[string][]Rule, _ []Rule) []Req {
 
 				if g.envoy && g.rng.Intn(4) == 0 {
 					r.Scheme = "" // Envoy does not have to tell the scheme
+				}
+
+				if g.rng.Intn(5) == 0 {
+					// a query, with a question mark of its own: where the path ends is not a matter of taste
+					r.Query = "next=/" + g.pick(segVals) + "?back=1"
 				}
 			}
 
